@@ -168,7 +168,7 @@ pub fn run(ctx: &Ctx, replay: Option<&str>) {
     // ---- structured words ---------------------------------------------------------------------
     let mut masks: Vec<u16> = vec![0xFFFF, 0, 0x00FF, 0xFF00, 0x0F0F, 0xF0F0, 0x5555, 0xAAAA, 0x7FFF, 0xFFFE, 0x8000, 0x0001];
     for k in 0..16 { masks.push(1 << k); masks.push(!(1u16 << k)); }
-    for _ in 0..ctx.n(6, 24) { masks.push(rng.u16()); masks.push(rng.u16() | rng.u16()); masks.push(rng.u16() & rng.u16()); }
+    for _ in 0..ctx.n(6, 16) { masks.push(rng.u16()); masks.push(rng.u16() | rng.u16()); masks.push(rng.u16() & rng.u16()); }
     masks.sort(); masks.dedup();
     let mut words: Vec<P> = Vec::new();
     for &m in &masks {
@@ -195,7 +195,7 @@ pub fn run(ctx: &Ctx, replay: Option<&str>) {
     ctx.stat("structured_pairs", (nw * nw) as i64);
 
     // ---- random x random ----------------------------------------------------------------------
-    let nrand = ctx.n(20_000, 300_000);
+    let nrand = ctx.n(20_000, 150_000);
     for k in 0..nrand {
         let m = |rng: &mut Rng| match rng.below(6) { 0 => 0xFFFF, 1 => 0, 2 => rng.u16() | rng.u16() | rng.u16(), 3 => rng.u16() & rng.u16(), _ => rng.u16() };
         let d = |rng: &mut Rng| match rng.below(5) { 0 => 0, 1 => 0xFFFF, _ => rng.u16() };
